@@ -5,6 +5,7 @@ CONSTANTS
   Classes = {"MA"}
   InitStreams <- InitStreamsDef
   ApplyCfgs <- ApplyCfgsSmall
+  Lifts = {"none"}
   Separator = FALSE
   Hist = FALSE
   Alphabet <- AlphabetCollide
